@@ -57,6 +57,9 @@ type devScript struct {
 	// ErrKind selects the error value a failing request returns (ReportErr / QuoteErr): "" a plain error, or an errno, bare or
 	// wrapped the ways the os and syscall packages wrap them
 	ErrKind string `json:"err_kind,omitempty"`
+	// SetLength != 0: the device also overwrites the Length field of the request structure it was handed (the kernel does not;
+	// a device implementation is free to scribble on its argument)
+	SetLength uint64 `json:"set_length,omitempty"`
 }
 
 func (s *devScript) err(what string) error {
@@ -130,6 +133,9 @@ func (d *scriptDev) Ioctl(command uintptr, arg any) (uintptr, error) {
 			copy(hdr.Data[:], d.s.Quote)
 			hdr.Status = d.s.Status
 			hdr.OutLen = d.s.OutLen
+		}
+		if d.s.SetLength != 0 {
+			req.Length = d.s.SetLength
 		}
 		return uintptr(d.s.QuoteResult), nil
 	}
@@ -316,6 +322,24 @@ func c15(x *mon.Ctx) {
 			}
 		}
 		x.Require("request-fails-with-errno", 0, n, n)
+	}
+	// ---- a device that scribbles on the request structure (raises or lowers its Length field): the bound of the quote is the
+	//      buffer the client allocated — oversized OutLen is an error, never a slice beyond the buffer; a valid OutLen is served
+	{
+		n := 0
+		for _, sl := range []uint64{1, 1024, labi.ReqBufSize - 1, labi.ReqBufSize + 1, 1 << 20, 1<<32 - 1, 1 << 40, 1<<64 - 1} {
+			for _, ol := range []uint32{0, 1, uint32(len(valid)), labi.ReqBufSize, labi.ReqBufSize + 1, 1 << 20, 1<<32 - 1} {
+				s := &devScript{OutLen: ol, Quote: valid, ReportData: randBytes(r, 64), TdReport: randBytes(r, 1024), FillRest: 0x44, SetLength: sl}
+				p, ok := deviceProblem(s)
+				param := fmt.Sprintf("device-sets-length=%d/outlen=%d", sl, ol)
+				if p != "" {
+					x.Violation("device-writes-the-request-structure", param, p, "device", s)
+				}
+				x.Note("device-writes-the-request-structure", param, ok, strings.HasPrefix(p, "GetRawQuote panics"), p == "")
+				n++
+			}
+		}
+		x.Require("device-writes-the-request-structure", n*3/7, n*4/7, n)
 	}
 	// ---- SUCCESSFUL requests whose buffer contents look like something else than a quote: the messages of the quote generation
 	//      service (4-byte big-endian length, then major / minor version, type, size, error code, two sizes, payload — request and
